@@ -54,6 +54,7 @@ func runC01(c *core.Ctx) {
 		}
 		var names []string
 		var ids []string
+		var bodies [][]byte
 		defer func() {
 			// several files in one invocation: one id per argument, in order, the same file twice gives the same id
 			if len(names) >= 2 {
@@ -82,6 +83,7 @@ func runC01(c *core.Ctx) {
 			w.Write(name, body)
 			names = append(names, name)
 			ids = append(ids, want)
+			bodies = append(bodies, body)
 			c.Oracle("C01.cli")
 			st := w.Goit("hash-object", name)
 			if st.Exit != 0 || strings.TrimSpace(st.Stdout) != want {
@@ -179,6 +181,37 @@ func runC01(c *core.Ctx) {
 				if err == nil && strings.TrimSpace(string(out)) != want {
 					w.Fail("C01.git-xcheck", "git-disagrees", trig, "git hash-object says %s, harness/goit say %s", strings.TrimSpace(string(out)), want)
 				}
+			}
+		}
+		if w.Hist%2 == 0 && len(names) > 0 {
+			// a path that is a symbolic link to a regular file: the content is what lies behind the link (whose own text
+			// is much shorter or much longer than that), named directly and reached through a directory
+			t := 0
+			for i := range bodies {
+				if len(bodies[i]) > len(bodies[t]) {
+					t = i
+				}
+			}
+			trig := "blob|through-symlink"
+			c.Class("cli|blob|through-symlink|" + sizeBucketM(len(bodies[t])))
+			w.Symlink("a link.lnk", names[t])
+			w.Symlink("lnk.d/"+strings.Repeat("inner-", 20)+".lnk", "../"+names[t])
+			c.Oracle("C01.cli")
+			st := w.Goit("hash-object", "a link.lnk")
+			if st.Exit != 0 || strings.TrimSpace(st.Stdout) != ids[t] {
+				w.Fail("C01.cli", "hash-object-differs", trig, "hash-object of a link to a file of %d bytes prints %q, expected %s", len(bodies[t]), clipS(st.Stdout, 60), ids[t])
+			}
+			st = w.Goit("add", "a link.lnk", "lnk.d")
+			post := st.Post.Repo()
+			if m, ok := post.Idx(); ok && st.Exit == 0 {
+				for p, id := range m {
+					if (p == "a link.lnk" || strings.HasPrefix(p, "lnk.d/")) && id != ids[t] {
+						w.Fail("C01.cli", "staged-id-differs", trig, "after add, the link %q to a file of %d bytes is staged as %s; hash-object prints %s", p, len(bodies[t]), id, ids[t])
+					}
+				}
+			}
+			if o, ok := post.Obj(ids[t]); !ok || !bytes.Equal(o.Body, bodies[t]) {
+				w.Fail("C01.cli", "stored-blob-differs", trig, "after adding links to it, objects/%s does not decode to the file's %d bytes", ids[t], len(bodies[t]))
 			}
 		}
 	})
